@@ -6,7 +6,11 @@
 // instrumented tree).
 package simtime
 
-import "time"
+import (
+	"time"
+
+	"github.com/Vedant9500/WTF/zz_verif/sim/simrt"
+)
 
 var (
 	installed bool
@@ -59,12 +63,28 @@ func Until(t time.Time) time.Duration {
 	return t.Sub(Now())
 }
 
-//go:norace
 func Sleep(d time.Duration) {
-	if !installed {
+	if !Installed() {
 		time.Sleep(d)
 		return
 	}
+	if simrt.Concurrent() {
+		// several tasks: the sleeper waits for a timer of its own; the others run meanwhile, and when everybody
+		// waits the clock jumps to the earliest timer (which may be this one)
+		t := newTimer(d, 0, nil)
+		for !timerFired(t) {
+			simrt.Pause()
+		}
+		return
+	}
+	sleepNow(d)
+}
+
+//go:norace
+func timerFired(t *Timer) bool { return t.fired }
+
+//go:norace
+func sleepNow(d time.Duration) {
 	sleeps = append(sleeps, d)
 	if d > 0 {
 		nowNS += int64(d)
